@@ -59,6 +59,22 @@ def render_decorated(rec):
         i = inner[k % len(inner)]
         ins = {"inside-expressions": [f"# {s}"], "two-comments": [f"# {s}", "# second line"], "blank-inside-expressions": ["", ""]}[place]
         texts = texts[:i] + ins + texts[i:]
+    elif place == "after-header-and-inside":
+        # a comment directly below a block header and a second one further down in the SAME block
+        if xheaders:
+            h = xheaders[k % len(xheaders)]
+            blk = [i for i in assigns if ls[i][2] == ls[h][2]]
+        else:
+            h, blk = None, assigns
+        later = [i for i in blk if i - 1 in blk] or blk
+        j = later[k % len(later)]
+        texts = texts[:j] + [f"# {s}"] + texts[j:]
+        first = (h + 1) if h is not None else blk[0]
+        texts = texts[:first] + ["# directly below the header"] + texts[first:]
+    elif place == "header-and-trailing":
+        i = assigns[k % len(assigns)]
+        texts[i] = texts[i] + f" # {s}"
+        texts = [f"# {s}"] + texts
     elif place == "trailing":
         i = assigns[k % len(assigns)]
         texts[i] = texts[i] + f" # {s}"
